@@ -1,6 +1,6 @@
 #!/usr/bin/env python3
-"""MANIFEST.setup_cmd: translate and SANY-check every module, build the harnesses.
-Offline, from files on disk only."""
+"""MANIFEST.setup_cmd: translate and SANY-check every module used by a registered check,
+build the harness binaries. Offline, from files on disk only."""
 import glob, json, os, subprocess, sys
 
 ROOT = os.path.dirname(os.path.dirname(os.path.abspath(__file__)))
@@ -8,27 +8,44 @@ sys.path.insert(0, os.path.join(ROOT, "tools"))
 
 
 def main():
-    import assemble, check
-    mods = sorted({json.load(open(p))["module"] for p in glob.glob(os.path.join(ROOT, "scen", "*.json"))
-                   if json.load(open(p)).get("kind", "fiber") == "fiber"})
-    for m in mods:
+    import assemble, check, thread_mc
+    from props import CLAIMED
+    scens = set()
+    for cfg in CLAIMED.values():
+        for key in ("mc", "scenarios", "live"):
+            for tier in ("quick", "thorough"):
+                scens.update(cfg.get(key, {}).get(tier, []))
+    fiber_mods, thread_mods, bins = set(), set(), set()
+    for s in sorted(scens):
+        p = os.path.join(ROOT, "scen", s + ".json")
+        if not os.path.exists(p):
+            print("setup: WARNING scenario file missing:", s)
+            continue
+        d = json.load(open(p))
+        if d.get("kind", "fiber") == "fiber":
+            fiber_mods.add(d["module"])
+        else:
+            thread_mods.add(d["module"])
+            bins.add(d.get("binary"))
+    for m in sorted(fiber_mods):
         assemble.assemble(m)
+    for m in sorted(thread_mods):
+        assemble.assemble_thread(m)
+    for m in sorted(fiber_mods | thread_mods):
         r = subprocess.run(["tla-sany", "Trace" + m + ".tla"], cwd=assemble.GEN, capture_output=True, text=True)
-        if "Semantic errors" in r.stdout or "Parse Error" in r.stdout or r.returncode != 0:
+        if "Semantic errors" in r.stdout or "Parse Error" in r.stdout or "Fatal errors" in r.stdout or r.returncode != 0:
             print(r.stdout[-3000:])
             print("setup: SANY failed for", m)
             return 1
         print("setup: module", m, "ok")
-    try:
-        import thread_mc
-        thread_mc.setup()
-    except ImportError:
-        pass
     check.build("fiber")
-    bins = sorted({json.load(open(p)).get("binary") for p in glob.glob(os.path.join(ROOT, "scen", "*.json"))
-                   if json.load(open(p)).get("kind") == "thread"})
-    for b in bins:
+    for b in sorted(x for x in bins if x):
         check.build("thread", b)
+    for extra in sorted({c.get("setup_cmd") for c in CLAIMED.values() if c.get("setup_cmd")}):
+        r = subprocess.run(extra, shell=True, cwd=ROOT)
+        if r.returncode != 0:
+            print("setup: failed:", extra)
+            return 1
     print("setup: ok")
     return 0
 
